@@ -7,7 +7,7 @@ VERIF = os.path.dirname(os.path.dirname(os.path.abspath(__file__)))
 
 TB = ("Trusted base: rustc nightly's MIR for /repo as built by `cargo check --lib` on x86-64 with the pinned Cargo.lock "
       "(debug-assertions and overflow-checks off so that debug_assert! does not count as a guard); the dbgsa fact exporter; "
-      "the transfer functions and ~40 library models of the pysa abstract interpreter; the specification tables in "
+      "the transfer functions and ~300 library models of the pysa abstract interpreter (self-tested against the real library at development time, tools/probe); the specification tables in "
       "pysa/lemmas.py and pysa/rules (written from the property statement, not from the code). ")
 
 CLAIMS = {
@@ -198,6 +198,31 @@ CLAIMS.update({
 NA_PENDING = "checker for this property is still being built in this commit; planned static clauses: DESIGN.md §4"
 
 
+# tables added after the first version of the claims (DESIGN.md §0.3, §7.2–§7.4): appended to the claim texts
+ADDENDA = {
+    "C01": " Also: the builder is run together with the real growth function (only the step function is scripted), the driver's own step queries are oracles, and the canonical-form tables (min_rc_flip for every k-mer type, odd K included) are part of the check.",
+    "C02": " Also: pruning tables (get_valid_exts, fix_exts, both censor functions, semantic sorted-table model), both summarizer tables, self-neighbour rows.",
+    "C03": " Also: stranded rows of find_edges, gapped packed store in the index-builder table, summarizer tables, bucket lemma (sorted all-k-mers list for the sharded pruning), beam expansion with end-on-path scenarios; max_path is judged on the returned path only.",
+    "C04": " Also: find_link / pruning / censor tables, Exts::from_dna_string and slice-bounds tables, combine with empty shard graphs.",
+    "C05": " Also: canonical-form tables for every k-mer type, end-to-end k-mer iterator lemmas (next/nth/size_hint on monomorphic instances), pass-membership sweep, large-group rows at mined sizes.",
+    "C06": " Also: scanner score/order/scan tables, slice view tables, and the persisted strandedness flag (serde all-fields rule for the graph types).",
+    "C07": " Also: score closures, poly-A sentinel oracle, counter-model search over score assignments, short-read rows.",
+    "C08": " Also: canonical-form tables (bucket id = rank of min_rc of the minimizer), capacity guard, Lmer::from_slice lemma, long-read rows at mined sizes (MAX_SCAN_LEN+1).",
+    "C09": " Also: find_link, get_valid_exts (incl. via find_edges / subtractive form), fix_exts, sequence_of_path (bases in normal form), payload-equality oracle in the builder, builder composed with the real growth function.",
+    "C10": " Also: monomorphic lemmas for the default methods and for Debug/Display of every k-mer type; case-splitting harness; compiler-evaluated static tables.",
+    "C11": " Also: canonical-form exploration tables, from_bytes/from_ascii lemmas.",
+    "C12": " Also: exact view lemmas (conversions, get_kmer and terminal accessors on reverse-complemented views).",
+    "C13": " Also: exact get_kmer / first_kmer / last_kmer / term_kmer / both_term_kmer lemmas on views at offsets straddling two and three storage words, end-to-end iterator lemmas, byte-container lemmas.",
+    "C14": " Also: render and order lemmas (hand-written comparison impls are decided by the interpreted order table), vector kernels and byte tables, base iteration by reference.",
+    "C15": " Also: exact view lemmas on symbolic backing strings (incl. backings whose length is a multiple of 32 and the empty string), view get_kmer for wide k-mers, base iteration of views. The abbreviated debug form of views >= 256 bases is treated as outside the clause (DESIGN.md C15).",
+    "C16": " Also: final-state hashed-N table (lower case, vector path), the whole ASCII alphabet through from_dna_string, DnaString render lemmas.",
+    "C17": " Also: from_slice lemma, == / != table on structured operand pairs (when written by hand), Debug lemma per capacity.",
+    "C18": " Also: end-to-end lemma on monomorphic instances (NodeKmer::into_iter + scripted interleavings of next / nth(n), n up to usize::MAX), machine-arithmetic obligation on the affine counters, empty-graph row of the node iterators.",
+    "C19": " Also: terminal k-mer order / equality oracles (incl. the all-A key) and map semantics in the builder table, explicit schedules of crate-spawned tasks, index layer with keyless hashes, find_link and find_edges tables (stranded and unstranded).",
+    "C20": " Also: serde conversions (try_from/from) interpreted on every serialized DnaString, Debug builders rendered, exact to_dna_string lemmas on views, empty `rest` object.",
+}
+
+
 def main():
     props = [json.loads(l) for l in open(os.path.join(VERIF, "properties.jsonl"))]
     checks = []
@@ -215,7 +240,7 @@ def main():
             "evidence_file": "/verif/evidence/%s.json" % pid,
             "replay_cmd_template": "./check %s --explain {path}" % pid,
             "engine": "pysa",
-            "level_claimed": {"category": c["category"], "text": c["text"], "design_ref": c["design_ref"]},
+            "level_claimed": {"category": c["category"], "text": c["text"] + ADDENDA.get(pid, ""), "design_ref": c["design_ref"]},
             "level_note": c["note"],
             "technique": c["technique"],
         })
@@ -238,7 +263,7 @@ def main():
         "checks": checks,
         "not_applicable": na,
         "notes": "Technique family: static analysis only. Every check rebuilds its facts from /repo's working tree on every run (fresh cargo target dir). "
-                 "Repairs of genuine defects D1-D7 are `fix:` commits in /repo, listed in known_findings.json as fixed.",
+                 "Repairs of genuine defects D1-D8 are `fix:` commits in /repo, listed in known_findings.json as fixed.",
     }
     with open(os.path.join(VERIF, "MANIFEST.json"), "w") as f:
         json.dump(m, f, indent=1)
